@@ -54,7 +54,11 @@ let check_sub id h (spec : string) =
       | Some g ->
         let g = int_of_nat g in
         if g = 0 then bump "stream_exact"
-        else if g = 1 then bump "stream_dup"
+        else if g = 1 then begin
+          bump "stream_dup";
+          (* with the candidate repair (a) in the repository (model switch fix_sub) a duplicate is a disagreement too *)
+          if fix_sub then mismatch "stream-unexplained" id (Printf.sprintf "duplicate-after-fix got=%s hist=%s %s" (digits_of_sts got) (digits_of_sts h) spec)
+        end
         else begin
           bump "stream_stale";
           mismatch "stream-stale" id (Printf.sprintf "gap=%d got=%s hist=%s %s" g (digits_of_sts got) (digits_of_sts h) spec)
